@@ -126,6 +126,8 @@ class _SymStructObj:
         return SymStruct.unpack(self.format, data[offset: offset + self.size])
 
     def __getattr__(self, name):
+        if name.startswith("__") or not hasattr(self._real if "_real" in self.__dict__ else _struct.Struct, name):
+            raise AttributeError(name)       # probes by abc / dataclasses / copy
         raise Unmodelled(f"struct.Struct.{name}")
 
 
@@ -387,6 +389,8 @@ def s_bytes(x=b"", *a):
         return x.frozen()
     if isinstance(x, (SBytes, SBlob, SRope)):
         return x
+    if not a and not isinstance(x, (bytes, bytearray, str, int, list, tuple, SInt, SStr, memoryview)) and hasattr(x, "__iter__"):
+        x = list(x)      # generator / map object: may yield symbolic ints
     if isinstance(x, (list, tuple)) and any(isinstance(i, SInt) for i in x):
         for i in x:
             lo, hi = core._iv(i)
